@@ -5570,10 +5570,13 @@ int CLUFactor<R>::vSolveUpdateRight(R* vec, int* ridx, int n, R eps)
 
          for(j = lbeg[i + 1]; j > k; --j)
          {
-            int m = ridx[n] = *idx++;
+            int m = *idx++;
             assert(m >= 0 && m < thedim);
             y = vec[m];
-            n += (y == 0) ? 1 : 0;
+
+            if(y == 0)
+               ridx[n++] = m;
+
             y = y - x * (*val++);
             vec[m] = (y != 0) ? y : SOPLEX_FACTOR_MARKER;
          }
